@@ -2,6 +2,7 @@
 From RRE Require Import Base.Sx Model.Join Proofs.JoinProofs Proofs.JoinWmProofs.
 From Coq Require Import Permutation.
 Open Scope Z_scope.
+From RRE Require Import Model.JoinMgr Proofs.JoinMgrProofs.
 From RRE Require Import Properties.C14.
 Check (C14_inner_join_exact_arrivals_partial : forall cond w ops,
   arrivals_only ops ->
@@ -16,3 +17,17 @@ Check (C14_interleaving_independent_until_eviction : forall cond w ops1 ops2,
   may_evict w [] ops1 = false -> may_evict w [] ops2 = false ->
   lefts ops1 = lefts ops2 -> rights ops1 = rights ops2 ->
   Permutation (concat (run_from cond w init ops1)) (concat (run_from cond w init ops2))).
+Check (C14_manager_delivers_projection : forall regs evs,
+  NoDup (map (fun g => j_id (regjoin g)) regs) -> Forall reg_ok regs -> Forall is_traffic evs ->
+  forall g, In g regs ->
+  let j := regjoin g in
+  delivered (j_id j) (mrun minit (map regop regs ++ evs)) =
+  concat (run_from (cond_of (j_kind j)) (j_w j) init (flat_map (jproj j) evs))).
+Check (C14_manager_join_exact_until_eviction : forall regs evs,
+  NoDup (map (fun g => j_id (regjoin g)) regs) -> Forall reg_ok regs -> Forall is_traffic evs ->
+  forall g, In g regs ->
+  let j := regjoin g in
+  let ops := flat_map (jproj j) evs in
+  may_evict (j_w j) [] ops = false ->
+  Permutation (delivered (j_id j) (mrun minit (map regop regs ++ evs)))
+              (ref_join (cond_of (j_kind j)) (j_w j) (lefts ops) (rights ops))).
